@@ -67,6 +67,7 @@ FUNCS = [  # (lean name, file, class, method, translator key, lean type)
     ("specs", "statemachine/callbacks.py", None, "specs", "specs", "P.SpecScript"),
     ("surface", "statemachine/state.py", None, "surface", "surface", "U.SurfaceScript"),
     ("takeCallback", "statemachine/dispatcher.py", None, "take", "take", "T.TakeScript"),
+    ("glue", "statemachine/utils.py", None, "glue", "glue", "K.GlueScript"),
 ]
 ASYNC_DEF = {"activateAsync", "triggerAsync", "processAsync", "wrapperDunder", "execAsyncCall", "execAsyncAll"}
 
@@ -2191,6 +2192,56 @@ def tr_take(repo):
     return "{\n  take := " + take + ",\n  build := " + build + ",\n  search := [" + ", ".join([s1, s2, s3]) + "] }"
 
 
+# ----------------------------------------------------------------------------------------- glue
+
+def tr_glue(repo):
+    def mod_fn(rel, name):
+        tree = ast.parse(_read(os.path.join(repo, rel), repo))
+        return _fn(tree, name), tree
+
+    def whole(fn, pats, what):
+        t = "\n".join(ntext(x) for x in _body(_plain(fn)))
+        for pat, val in pats:
+            if re.match(pat, t, flags=re.S):
+                return val
+        raise Untranslatable(f"{what}: body not recognised: {t!r}")
+    fn, tree = mod_fn("statemachine/utils.py", "run_async_from_sync")
+    if not any(isinstance(n, ast.Assign) and ast.unparse(n) == "_cached_loop = threading.local()" for n in tree.body):
+        raise Untranslatable("utils.py: `_cached_loop` is not `threading.local()`")
+    ras = whole(fn, [(
+        r"^global _cached_loop\ntry:\n    asyncio\.get_running_loop\(\)\n    return coroutine\nexcept RuntimeError:\n"
+        r"    if not hasattr\(_cached_loop, 'loop'\):\n        _cached_loop\.loop = asyncio\.new_event_loop\(\)\n"
+        r"    loop = _cached_loop\.loop\n    task = asyncio\.ensure_future\(coroutine, loop=loop\)\n"
+        r"    try:\n        return loop\.run_until_complete\(task\)\n    except \(KeyboardInterrupt, SystemExit\):\n"
+        r"        if not task\.done\(\):\n            task\.cancel\(\)\n            try:\n"
+        r"                loop\.run_until_complete\(task\)\n            except BaseException:\n                pass\n        raise$",
+        "[.insideLoopHandBackCoroutine, .perThreadLoopKept, .runToCompletion, .onInterruptCancelDrainReraise]")],
+        "run_async_from_sync")
+    fn, _t = mod_fn("statemachine/utils.py", "ensure_iterable")
+    ei = whole(fn, [(r"^if isinstance\(obj, str\):\n    return \[obj\]\ntry:\n    return iter\(obj\)\nexcept TypeError:\n    return \[obj\]$",
+                     "[.stringIsOneItem, .iteratorElseOneItem]")], "ensure_iterable")
+    fn, _t = mod_fn("statemachine/utils.py", "qualname")
+    qn = whole(fn, [(r"^return '\.'\.join\(\[cls\.__module__, cls\.__name__\]\)$", "true")], "qualname")
+    mi = whole(method(repo, "statemachine/mixins.py", "MachineMixin", "__init__"), [(
+        r"^super\(\)\.__init__\(\*args, \*\*kwargs\)\nif not self\.state_machine_name:\n    raise ValueError\(.*?\)\n"
+        r"(\w+) = registry\.get_machine_cls\(self\.state_machine_name\)\n"
+        r"(\w+) = \1\(self, state_field=self\.state_field_name\)\nsetattr\(self, self\.state_machine_attr, \2\)\n"
+        r"if self\.bind_events_as_methods:\n    \2\.bind_events_to\(self\)$",
+        "[.superInitFirst, .requireMachineName, .lookUpClass, .constructOverSelf, .attach, .bindEventsIfAsked]")],
+        "MachineMixin.__init__")
+
+    def carries(cls):
+        fn = method(repo, "statemachine/exceptions.py", cls, "__init__")
+        return _strlist(sorted(m.group(1) for x in _body(fn) for m in [re.match(r"^self\.(\w+) = \1$", ast.unparse(x))] if m))
+    fn, _t = mod_fn("statemachine/registry.py", "register")
+    keys = [m.group(1) for x in _body(fn) for m in [re.match(r"^_REGISTRY\[(.+)\] = cls$", ast.unparse(x))] if m]
+    if len(keys) != len(_body(fn)) - 1 or ast.unparse(_body(fn)[-1]) != "return cls":
+        raise Untranslatable("registry.register: body")
+    return ("{\n  runAsyncFromSync := " + ras + ",\n  ensureIterable := " + ei + ",\n  mixinInit := " + mi
+            + ",\n  notAllowedCarries := " + carries("TransitionNotAllowed") + ", invalidStateCarries := " + carries("InvalidStateValue")
+            + ",\n  registryKeys := " + _strlist(keys) + ", qualnameIsModuleDotName := " + qn + " }")
+
+
 TRANSLATORS = {"eventcall": tr_eventcall, "send": tr_send, "start": tr_start, "injected": tr_injected,
                "activate": tr_activate, "trigger": tr_trigger, "process": tr_process, "wrapper": tr_wrapper,
                "executor": tr_executor, "bind": tr_bind,
@@ -2233,6 +2284,8 @@ def _translate_one(repo, name, rel, cls, meth, key, ty):
             return (ty, tr_surface(repo), None)
         if key == "take":
             return (ty, tr_take(repo), None)
+        if key == "glue":
+            return (ty, tr_glue(repo), None)
         if key == "injected":
             if [ast.unparse(d) for d in fn.decorator_list] != ["property"]:
                 raise Untranslatable("extended_kwargs is not a property")
@@ -2410,6 +2463,13 @@ SELFTEST_EDITS = [
     ("statemachine/dispatcher.py", "        if not expression or names_not_found:", "        if not expression:"),
     ("statemachine/dispatcher.py", "                if getattr(func, \"__func__\", None) is spec.func:", "                if getattr(type(listener.obj), spec.attr_name, None) is spec.func:"),
     ("statemachine/dispatcher.py", "            names_not_found_handler(name)\n", ""),
+    ("statemachine/utils.py", "        return loop.run_until_complete(task)", "        return loop.run_until_complete(asyncio.wait_for(task, 30))"),
+    ("statemachine/utils.py", "_cached_loop = threading.local()", "class _Holder:\n    pass\n\n\n_cached_loop = _Holder()"),
+    ("statemachine/utils.py", "        return iter(obj)", "        return list(obj)[:1]"),
+    ("statemachine/mixins.py", "        sm = machine_cls(self, state_field=self.state_field_name)", "        sm = machine_cls(self)"),
+    ("statemachine/mixins.py", "        super().__init__(*args, **kwargs)\n        if not self.state_machine_name:", "        if not self.state_machine_name:"),
+    ("statemachine/exceptions.py", "        self.event = event\n", "        self.event = str(event)\n"),
+    ("statemachine/registry.py", "    _REGISTRY[cls.__name__] = cls\n", "    _REGISTRY.setdefault(cls.__name__, cls)\n"),
 ]
 
 
@@ -2420,6 +2480,8 @@ HARMLESS_EDITS = [
     ("statemachine/signature.py", "arg_vals", "positional_values"),
     ("statemachine/signature.py", "kwargs_param", "varkw_param"),
     ("statemachine/graph.py", "already_visited", "seen"),
+    ("statemachine/utils.py", "        task = asyncio.ensure_future", "        # schedule it\n        task = asyncio.ensure_future"),
+    ("statemachine/mixins.py", " sm = machine_cls(", " sm: object = machine_cls("),
     ("statemachine/graph.py", "    visit = deque()", "    # breadth first\n    visit = deque()"),
     ("statemachine/factory.py", "        trap_states = [s for s in cls.states if not s.final and not s.transitions]",
      "        trap_states = [st for st in cls.states if not st.final and not st.transitions]  # no way out"),
@@ -2524,6 +2586,7 @@ import SMV.Src.IRFactory
 import SMV.Src.IRSpec
 import SMV.Src.IRSurface
 import SMV.Src.IRTake
+import SMV.Src.IRGlue
 /-! GENERATED by `harness/srcgen.py --write-expected` from the tree the theorems of `SMV/Src/Tie.lean` were
 proved for. Do not edit by hand. -/
 """
